@@ -80,14 +80,53 @@ class FramePool:
             return tuple(e for d in item for e in d["coords"])
         return tuple(e for c in item if c is not None for e in c)
 
-    def map(self, fn, it):
+    @staticmethod
+    def task_context(fn):
+        """What the task function can reach: closure cells, functools.partial arguments, a bound self - identified by
+        structure, not by name (the task function is private: a closure today, a bound method or a partial tomorrow)."""
+        import functools
+
+        vals = []
+        f = fn
+        while isinstance(f, functools.partial):
+            vals += list(f.args) + list(f.keywords.values())
+            f = f.func
+        if getattr(f, "__self__", None) is not None:
+            vals.append(f.__self__)
+        if getattr(f, "__closure__", None):
+            for c in f.__closure__:
+                try:
+                    vals.append(c.cell_contents)
+                except ValueError:
+                    pass
+        is_regs = lambda v: isinstance(v, (list, tuple)) and len(v) > 0 and all(  # noqa
+            isinstance(r, (list, tuple)) and len(r) > 0 and all(isinstance(a, np.ndarray) for a in r) for r in v)
+        is_funcs = lambda v: isinstance(v, (list, tuple)) and len(v) > 0 and all(hasattr(x, "get_initial_regions") for x in v)  # noqa
+        is_cube = lambda v: hasattr(v, "calculate") and hasattr(v, "dims")  # noqa
+        out = {}
+        for v in vals:
+            if "results" not in out and is_regs(v):
+                out["results"] = v
+            elif "funcs" not in out and is_funcs(v):
+                out["funcs"] = v
+            elif "self" not in out and is_cube(v):
+                out["self"] = v
+        return out
+
+    def map(self, fn, it, chunksize=None):
         items = list(it)
-        cells = dict(zip(fn.__code__.co_freevars, [c.cell_contents for c in fn.__closure__]))
-        rec = {"tasks": len(items), "violations": [], "regions": 0, "coords": [self.coords_of(x) for x in items]}
+        if chunksize is not None and chunksize <= 0:
+            # multiprocessing.pool.Pool.map with a chunk size below 1 forms no task batch at all and returns the unfilled result list (probed
+            # against ThreadPool in poolmon.probe): nothing is handed to the workers
+            FramePool.log.append({"tasks": 0, "violations": [], "regions": 0, "coords": [], "stale": None, "chunksize": chunksize})
+            return [None] * len(items)
+        cells = self.task_context(fn)
+        rec = {"tasks": len(items), "violations": [], "regions": 0, "coords": [self.coords_of(x) for x in items], "stale": None}
         FramePool.log.append(rec)
         if "results" not in cells:
-            rec["violations"].append(("monitor", None, "closure has no `results` cell"))
-            for item in items:
+            # the monitor cannot find the shared regions: it does not bind (stale); tasks still run in reverse order
+            rec["stale"] = "the task function reaches no list of region lists (closure cells, partial arguments, bound self)"
+            for item in reversed(items):
                 fn(item)
             return
         regions = [r for regs in cells["results"] for r in regs]
@@ -134,6 +173,16 @@ class FramePool:
         setall(base)
         for item in reversed(items):
             fn(item)
+
+
+def probe():
+    """The library behaviour FramePool.map mirrors for chunksize <= 0."""
+    from multiprocessing.pool import ThreadPool
+
+    seen = []
+    with ThreadPool(2) as p:
+        r = p.map(seen.append, [1, 2, 3], chunksize=0)
+    return r == [None, None, None] and seen == []
 
 
 def install():
